@@ -282,9 +282,13 @@ func assignedErrName(c *core.Ctx, call *ssa.Call) string {
 
 // checkErrKeep arms ERR-KEEP on the given packages.
 func checkErrKeep(c *core.Ctx, l *core.Ledger, rule string, rels []string) {
+	// the companion rule on the same packages: the sense of an error test is not inverted
+	checkErrSense(c, l, "ERR-SENSE", rels)
+	checkErrUsed(c, l, "ERR-USED", rels)
+	checkOkSense(c, l, "OK-SENSE", rels)
 	var fns []*ssa.Function
 	for _, f := range c.AllFuncs(rels...) {
-		if c.IsTestFile(f.Pos()) {
+		if c.IsTestFile(f.Pos()) || !errInScope(f) {
 			continue
 		}
 		if _, file := c.FileOf(f.Pos()); file != nil && core.IsGenerated(file) {
